@@ -351,6 +351,52 @@ theorem Sk.spending_needs_grant {s : Cw1Subkeys.State} {blk : Block} {snd : Addr
       rw [← hs, checkMsgs_none hn h1, hn]
   · rfl
 
+/-! ## Grants are stored under validated addresses only -/
+
+/-- Every address argument of the message that `addr_validate` accepted satisfies `V` (think of `V` as "is a
+well-formed address": the oracle behind the `valid` flags). -/
+def argsOk (V : String → Prop) : Cw1Subkeys.Msg → Prop
+  | .increaseAllowance sp _ _ => sp.valid = true → V sp.text
+  | .decreaseAllowance sp _ _ => sp.valid = true → V sp.text
+  | .setPermissions sp _ => sp.valid = true → V sp.text
+  | _ => True
+
+/-- All keys of `ALLOWANCES` and `PERMISSIONS` satisfy `V`. -/
+def KeysOk (V : String → Prop) (s : Cw1Subkeys.State) : Prop :=
+  (∀ x, s.allowances.get? x ≠ none → V x) ∧ (∀ x, s.permissions.get? x ≠ none → V x)
+
+theorem Sk.step_keys {V : String → Prop} {s : Cw1Subkeys.State} (hk : KeysOk V s) (blk : Block) (snd : Addr)
+    {m : Cw1Subkeys.Msg} (hm : argsOk V m) : KeysOk V (Cw1Subkeys.step s blk snd m) := by
+  constructor
+  · intro x hx
+    by_cases hc : (Cw1Subkeys.step s blk snd m).allowances.get? x = s.allowances.get? x
+    · exact hk.1 x (by rw [← hc]; exact hx)
+    · rcases Sk.allowance_change_cases hc with ⟨_, _, sp, c, e, hv, rfl, hm' | hm'⟩ | ⟨_, rfl, msgs, rfl⟩
+      · subst hm'; exact hm hv
+      · subst hm'; exact hm hv
+      · exact hk.1 x (Sk.spending_needs_grant hc)
+  · intro x hx
+    by_cases hc : (Cw1Subkeys.step s blk snd m).permissions.get? x = s.permissions.get? x
+    · exact hk.2 x (by rw [← hc]; exact hx)
+    · obtain ⟨_, _, sp, p, hv, rfl, rfl⟩ := Sk.permissions_change_cases hc
+      exact hm hv
+
+/-- C17 (subkeys): on every history from instantiation, allowances and permissions exist only for addresses that
+`addr_validate` accepted in some admin call. -/
+theorem Sk.grant_keys_valid (V : String → Prop) {m0 : Cw1Subkeys.InstMsg} {s0 : Cw1Subkeys.State}
+    (h0 : Cw1Subkeys.instantiate m0 = .ok s0) (ops : List (Block × Addr × Cw1Subkeys.Msg))
+    (hops : ∀ op ∈ ops, argsOk V op.2.2) : KeysOk V (Sk.run s0 ops) := by
+  have hinit : KeysOk V s0 := by
+    simp [Cw1Subkeys.instantiate] at h0
+    obtain ⟨c, _, rfl⟩ := h0
+    constructor <;> intro x hx <;> simp at hx
+  clear h0
+  induction ops generalizing s0 with
+  | nil => exact hinit
+  | cons op rest ih =>
+    simp only [Sk.run, List.foldl_cons]
+    exact ih (fun o ho => hops o (List.mem_cons_of_mem _ ho)) (Sk.step_keys hinit op.1 op.2.1 (hops op (by simp)))
+
 /-! ## non-vacuity -/
 
 def wl0 : Cw1Whitelist.State := ⟨["a", "b"], true⟩
